@@ -74,6 +74,13 @@ CHECKS.update({
    note="Fault-free round trips (the statement is about those); container types and transform output width are not compared; FlowPreconditioningTransform.save is NotImplemented upstream and not exercised."),
 })
 
+
+CHECKS.update({
+ "C14": dict(level="exploration", engine="operation-engine", ref="DESIGN.md section 4 C14", technique="deterministic simulation with fault injection, operation engine: seeded Hypothesis stateful machine over one checkpoint file and several Aspire processes (fit/refit, sample, nested auto_checkpoint, crash during sample, resume-from-file-then-sample); semantic oracle on the file after every operation",
+   text="After every operation of every generated sequence (<= 8 ops, shrunk) the file is audited as it is: the proposal loaded from the file must reproduce the stored log_q of the checkpoint's particles, the stored configuration must name the sampler recorded inside the checkpoint, and at the end resume_from_file + sample_posterior() on a copy must run without mixing population and proposal. Proposals are stub flows fitted to visibly different data so 'which proposal' is unmistakable.",
+   note="Stub proposal/kernel/model; one file, two live instances, sequences up to 8 operations; a refit between resume_from_file and its first sample_posterior is not generated (caller mixing proposals in memory)."),
+})
+
 NOT_APPLICABLE = [
   {"property_id": "C02", "reason": "pure function of one array triple (weights/evidence/ESS formulas): no schedule, storage, randomness, interruption or second party for a simulator to control; see DESIGN.md section 5"},
   {"property_id": "C04", "reason": "pure mathematical map per transform configuration, quantified over inputs only: nothing a crash, seed or operation order can decide; see DESIGN.md section 5"},
